@@ -311,7 +311,12 @@ func (t *Dense) fix() {
 // makeMask adds a mask slice to tensor if required
 func (t *Dense) makeMask() {
 	var size int
-	size = t.shape.TotalSize()
+	// the mask runs parallel to the data array (IsMasked compares the two lengths, the masked methods index both
+	// with one index): for a view or a clone of a view that is the length of the window, not the number of elements
+	size = t.len()
+	if size == 0 {
+		size = t.shape.TotalSize()
+	}
 	if len(t.mask) >= size {
 		t.mask = t.mask[:size]
 	}
